@@ -2,7 +2,7 @@
 
 from typing import Any, Dict, List, Mapping, Optional, Sequence
 
-from ..exc import ValidationError
+from ..exc import CoercionError, ValidationError
 from ..lang.ast import (
     Document,
     FragmentDefinition,
@@ -11,6 +11,7 @@ from ..lang.ast import (
 )
 from ..schema import Schema
 from .collect_fields import collect_fields_untyped
+from .untyped_value_from_ast import untyped_value_from_ast
 
 
 def _nesting_levels(
@@ -101,13 +102,32 @@ class MaxDepthValidationRule:
             # depth of 0. Fragments are traversed at every level (including the
             # top of the operation) and all the fields sharing a response name
             # contribute their sub selection.
-            depth = max(
-                0,
-                _nesting_levels(
-                    op.selection_set.selections, fragments, variables
+            # Variables which were not provided fall back on their declared
+            # default, as they will during execution.
+            op_variables = dict(variables)
+            for var_def in op.variable_definitions:
+                var_name = var_def.variable.name.value
+                if (
+                    var_name not in op_variables
+                    and var_def.default_value is not None
+                ):
+                    op_variables[var_name] = untyped_value_from_ast(
+                        var_def.default_value
+                    )
+
+            try:
+                depth = max(
+                    0,
+                    _nesting_levels(
+                        op.selection_set.selections, fragments, op_variables
+                    )
+                    - 1,
                 )
-                - 1,
-            )
+            except CoercionError:
+                # A @skip / @include condition cannot be evaluated (missing
+                # variable): the request cannot be executed either and is
+                # refused by the standard rules or by variable coercion.
+                continue
 
             if depth > self.max_depth:
                 errors.append(
